@@ -9,7 +9,7 @@ EXPLORER = 'E (all ordered key pairs x id orders x plaintext lengths; all single
 RULE = ('channels: 6 Ed25519 seeds => all 36 ordered pairs (incl. equal keys) x channel ids given {as derived, swapped, equal} x plaintext lengths '
         '{0,1,15,16,17,31,32,33,64,1000}: B.decrypt(A.encrypt(p)) == p both ways; packet == key id the peer expects || SHA-256(p) || ciphertext; '
         'ciphertext == reference AES-256-CTR (keystream built from AES-ECB) keyed from the X25519 shared secret (libsodium) by the direction rule. '
-        'signatures: sign -> verify true; EVERY single-bit flip of the signature (512) and of the message, and every other key => false/raise; both '
+        'signatures: sign -> verify true; EVERY single-bit flip of the signature (512) and of the message, every other key, EVERY re-split of sig||msg at another byte boundary and wrong-length signatures => false/raise; both '
         'signing helpers agree. mnemonics: os.urandom replaced by a scripted source; default stream + ALL executions with <= k deviations (a draw '
         'answered with a boundary value) - the result must be the first 24-word group of the stream that is a basic seed (reference HMAC/PBKDF2), '
         'mnemonic_is_valid true, key derivation deterministic and equal to the reference PBKDF2 chain. non-trivial = non-empty plaintext / any flip '
@@ -33,7 +33,7 @@ def BOUNDS(tier):
 
 
 def REQUIRED_COVER(tier):
-    return {'ids:local>peer', 'ids:local<peer', 'ids:equal', 'pair:same-key', 'flip:sig', 'flip:msg', 'mnemonic:deviation', 'wallet-key'}
+    return {'ids:local>peer', 'ids:local<peer', 'ids:equal', 'pair:same-key', 'flip:sig', 'flip:msg', 'sign:resplit', 'mnemonic:deviation', 'wallet-key'}
 
 
 # ------------------------------------------------------------------ reference derivations
@@ -189,6 +189,21 @@ def case_sign(rec, ik, mlen):
             n += 1
             if not rejects(pk, m2, sig):
                 rec.violation('sign:other-msg', 'signature verifies for another message', 'case_sign', args)
+    # the boundary between signature and message is part of what is signed: EVERY re-split of sig||msg into
+    # (signature', message') other than the genuine one, and every truncated / extended signature, must be refused
+    whole = sig + msg
+    for cut in range(0, len(whole) + 1):
+        if cut == 64:
+            continue
+        n += 1
+        if not rejects(pk, whole[cut:], whole[:cut]):
+            rec.violation('sign:resplit', f'sig||msg re-split at byte {cut} (signature of {cut} bytes) verifies', 'case_sign', args)
+            break
+    for s2 in (sig[:63], sig + b'\x00', sig + sig, b''):
+        n += 1
+        if not rejects(pk, msg, s2):
+            rec.violation('sign:siglen', f'signature of {len(s2)} bytes verifies', 'case_sign', args)
+    rec.covered('sign:resplit')
     rec.trace(n)
     rec.bulk(states=n, nontrivial=n)
     rec.state(('sign', ik, mlen))
